@@ -548,6 +548,27 @@ func main() {
 			st = append(st, Case{Kind: "stress", Stress: "valid-yaml-then-" + name, Bytes: append(append([]byte{}, goodY...), tail...)})
 		}
 	}
+	// line breaks other than LF (YAML also counts CR, NEL, LS and PS as line breaks, JSON strings may
+	// hold LS / PS raw): a multi-line document written with each of them, intact and with a syntax
+	// error at its end, near its middle and in its first line - what an error path that counts lines
+	// its own way would trip over
+	if len(bases) > 0 {
+		goodY := string(gen.RenderYAML(bases[0].Tree))
+		for bname, br := range map[string]string{"cr": "\r", "nel": "\u0085", "ls": "\u2028", "ps": "\u2029", "crlf": "\r\n", "lf": "\n"} {
+			y := strings.ReplaceAll(goodY, "\n", br)
+			half := len(y) / 2
+			for ename, doc := range map[string]string{"intact": y, "error-at-the-end": y + "key: [unclosed", "error-in-the-middle": y[:half] + br + "\t- : [" + br + y[half:], "error-in-the-first-line": "? [" + br + y,
+				"error-after-many-breaks": y + strings.Repeat(br, 40) + "}"} {
+				st = append(st, Case{Kind: "stress", Stress: "yaml-with-" + bname + "-line-breaks-" + ename, Bytes: []byte(doc)})
+			}
+			j := `{"cdiVersion":"0.5.0","kind":"v/c","annotations":{"note":"a` + strings.Repeat(br, 12) + `b"},"devices":[{"name":"d","containerEdits":{"env":["A=b"]}}]`
+			if bname == "ls" || bname == "ps" || bname == "nel" {
+				st = append(st, Case{Kind: "stress", Stress: "json-with-raw-" + bname + "-in-a-string-intact", Bytes: []byte(j + "}")})
+				st = append(st, Case{Kind: "stress", Stress: "json-with-raw-" + bname + "-in-a-string-unclosed", Bytes: []byte(j)})
+				st = append(st, Case{Kind: "stress", Stress: "json-with-raw-" + bname + "-in-a-string-then-bracket", Bytes: []byte(j + "]")})
+			}
+		}
+	}
 	for n0 := 0; n0 <= 5; n0++ {
 		for n1 := 0; n1 <= 4; n1++ {
 			for _, bad := range []bool{false, true} {
@@ -582,7 +603,7 @@ func main() {
 		return fmt.Sprintf("(a) %d base documents x every member position (present members, absent optional members, first/last list elements, one unknown member per object) x an 18-value type-confusion domain "+
 			"(absent, null, strings, 0, -1, 2^32, 2^63, below int64, 1.5, true, [], [null], [\"\"], [[]], [{}], {}, {x:null}, deep nesting) and every single value-level defect of C05's generator (malformed names, keys, paths, versions, sizes): %d documents (+%d confusion pairs), JSON and YAML, through ParseSpec, ReadSpec, cache Refresh and every query, "+
 			"MinimumRequiredVersion/ValidateVersion, schema ValidateData/ValidateReader/ReadAndValidate/ValidateFile/Validate, and - when the document loads - InjectDevices/ApplyEdits of every device into %d OCI spec shapes; "+
-			"(b) every byte string of length 0..%d over %d structural bytes (%d strings); (b2) every string of up to %d tokens over %q (%d strings) as device name, annotation key/value, plugin and device id through the parser, the annotation helpers, GetDevice and InjectDevices, and names of every byte length 1..300 that end in / start with a character of 1..4 bytes; (c) %d stress documents and directory populations (0..5 + 0..4 valid files in two directories all defining one device, with and without an unparsable file in between); (d) documents of (a) loaded by the watcher goroutine of an auto-refresh cache in worker subprocesses. "+
+			"(b) every byte string of length 0..%d over %d structural bytes (%d strings); (b2) every string of up to %d tokens over %q (%d strings) as device name, annotation key/value, plugin and device id through the parser, the annotation helpers, GetDevice and InjectDevices, and names of every byte length 1..300 that end in / start with a character of 1..4 bytes; (c) %d stress documents (deep nesting, aliases, trailing data, documents written with CR / NEL / LS / PS / CRLF line breaks with and without a syntax error) and directory populations (0..5 + 0..4 valid files in two directories all defining one device, with and without an unparsable file in between); (d) documents of (a) loaded by the watcher goroutine of an auto-refresh cache in worker subprocesses. "+
 			"Oracle: no panic, no process death, a file that does not load has a cache error entry. Distinct by construction; every case is non-trivial (it is executed against all entry points)",
 			len(bases), nDocs.Load(), nPairs.Load(), len(ociShapes), L, len(structural), nBytes.Load(), NL, nameTokens, nNames.Load(), len(st))
 	}
